@@ -391,7 +391,7 @@ def gen_warp(rng: random.Random, tier: str):
         ac = rng.random() < 0.6
         gs = tgrid_spec(rng, d, ac=ac, max_size=4 if d == 3 else 6)
         spec = any_spec(rng, d, ac)
-        tk = rng.choice(["none", "other", "other", "resized", "same_other_ac"])
+        tk = rng.choice(["none", "other", "other", "resized", "same_other_ac", "flipped"])
         sk = rng.choice(["none", "other", "other", "transform"])
         pad = rng.choice(["border", "zeros", "const"])
         c = {"spec": spec, "grid": gs, "tk": tk, "sk": sk, "pad": pad, "cval": rng.choice([2.5, -1.0]) if pad == "const" else None,
@@ -409,7 +409,11 @@ def _warp_grids(c, g):
     tk, sk = c["tk"], c["sk"]
     tgt = {"none": None, "other": lambda: gen.make_grid(c["target"]), "resized": lambda: g.resize(c["newsize"]),
            "same_other_ac": lambda: Grid(size=g.size(), spacing=g.spacing(), center=g.center(), direction=g.direction(),
-                                         align_corners=not g.align_corners())}[tk]
+                                         align_corners=not g.align_corners()),
+           # the same field of view sampled in REVERSED index order along the first two axes (a 180 degree in-plane turn,
+           # e.g. LPS vs RAS): the points span the same box as the transform's lattice but are not that lattice
+           "flipped": lambda: Grid(size=g.size(), spacing=g.spacing(), center=g.center(), align_corners=g.align_corners(),
+                                   direction=g.direction() @ torch.diag(torch.tensor([-1.0, -1.0, 1.0][:g.ndim])))}[tk]
     tgt = tgt() if callable(tgt) else None
     src = {"none": None, "other": lambda: gen.make_grid(c["source"]), "transform": lambda: g}[sk]
     src = src() if callable(src) else None
